@@ -90,7 +90,7 @@ func main() {
 			fmt.Fprintln(os.Stderr, "-dir is required")
 			os.Exit(2)
 		}
-		cfg := runCfg{programs: 11, values: 3, truncCap: 120, corruptPer: 5, skOps: 1500}
+		cfg := runCfg{programs: 9, values: 2, truncCap: 80, corruptPer: 3, skOps: 1500}
 		if *tier == "thorough" {
 			cfg = runCfg{programs: 40, values: 8, truncCap: 400, corruptPer: 17, skOps: 20000, probes: true}
 		}
@@ -175,6 +175,8 @@ func run(repo, dir string, seed uint64, cfg runCfg, keep bool) int {
 	icfg.SafeNames = true
 	icfg.NoTypedefContainers = true // fastgo: typedef'd containers are probed separately (thriftgo panics / output does not compile)
 	icfg.NoGoNS = false             // fastgo: a package named like a local variable (b, p, x, l) is probed separately
+	icfg.SharedGoNS = false         // fastgo: two files in one Go package: self import / ThriftGoUnusedProtection redeclared (probed separately)
+	icfg.BinaryMapKeys = false      // fastgo: FastRead of map<binary,…> does not compile (probed separately)
 	var units []batch.Unit
 	units = append(units, batch.Unit{Prog: aimShapes(), Backend: "fastgo", Recurse: true, Tag: "aim", NoSynth: true})
 	for i := 0; i < cfg.programs; i++ {
@@ -271,11 +273,23 @@ func run(repo, dir string, seed uint64, cfg runCfg, keep bool) int {
 		out.Fail(vl.OracleFail{Key: key, What: what, Input: in, Expected: expected, Observed: answers[i]})
 		out.Sample(map[string]string{"op": trunc(ls.lines[i], 300), "got": trunc(answers[i], 200), "why": what})
 	}
+	var panics []int
 	for i, line := range ls.lines {
 		c := ls.checks[i]
 		ans := answers[i]
 		if c.toModel {
-			out.Case(line, ans, c.class != "schema")
+			impl := ans
+			if (c.class == kFW || c.class == kFN) && strings.HasPrefix(ans, "ok ") {
+				// Go map iteration order is random: map entries are canonicalised (sorted by encoded key) on both sides
+				if raw, err := hex.DecodeString(strings.TrimPrefix(ans[3:], "-")); err == nil {
+					if cb, err := refcodec.Canon(raw); err == nil {
+						impl = "ok " + hx(cb)
+					} else {
+						impl = "ok malformed:" + ans[3:]
+					}
+				}
+			}
+			out.Case(line, impl, c.class != "schema")
 		}
 		out.Count("op." + c.class + "." + strings.Fields(line + " ?")[0])
 		if ans == "crash" {
@@ -284,11 +298,27 @@ func run(repo, dir string, seed uint64, cfg runCfg, keep bool) int {
 		}
 		key, what, exp := verdict(ls, answers, i, out)
 		if what != "" {
+			if key == "FR-panic" {
+				// many inputs, few causes: the check keys them by cause (asking the model why it panics, see checks/c10.py);
+				// the shortest inputs are reported
+				panics = append(panics, i)
+				out.Count("oracle.fail.FR_panic." + c.class)
+				fails++
+				continue
+			}
 			if key == "" {
 				key = line
 			}
 			report(i, key, what, exp)
 		}
+	}
+	sort.SliceStable(panics, func(a, b int) bool { return len(ls.lines[panics[a]]) < len(ls.lines[panics[b]]) })
+	for k, i := range panics {
+		if k >= 60 {
+			break
+		}
+		fails--
+		report(i, "FR-panic|"+ls.lines[i], "FastRead panics ("+ls.checks[i].class+"/"+ls.checks[i].note+")", "err (or ok), never a panic")
 	}
 	// ---- probes (thorough): known-bad shapes in a second batch; outcome goes into the statistics only
 	if cfg.probes {
@@ -631,6 +661,10 @@ func aimedReads(u *batch.UnitInfo, sidx int, key string, st *idlgen.SStruct, ls 
 	for k := 0; k < len(full); k++ {
 		addRead(ls, check{class: kTrunc, unit: u, sidx: sidx, wantErr: true, note: "aim_skip_map_trunc"}, key, full[:k])
 	}
+	// an unknown field whose type byte is >= 0x80: gopkg's TType is int8, Skip indexes typeToSize with a negative number
+	addRead(ls, check{class: kCorrupt, unit: u, sidx: sidx, note: "aim_negative_type"}, key, []byte{0x80, 0, 1, 0})
+	addRead(ls, check{class: kCorrupt, unit: u, sidx: sidx, note: "aim_negative_type_eof"}, key, []byte{0xff, 0, 1})
+	addRead(ls, check{class: kCorrupt, unit: u, sidx: sidx, note: "aim_negative_elem_type"}, key, []byte{15, 0, 1, 0x90, 0, 0, 0, 1, 0, 0})
 	// unknown fields nested 63, 64, 65 lists deep around one i32 / around nothing: the two runtimes count depth differently
 	for _, depth := range []int{62, 63, 64, 65, 66} {
 		for _, leaf := range []bool{true, false} {
@@ -726,7 +760,8 @@ func verdict(ls *lineSet, answers []string, i int, out *vl.Out) (string, string,
 	case kErrCls:
 		ra := answers[c.pair]
 		if ans == "panic" {
-			return "", "FastRead panics", ra
+			out.Count("errclass.FE_panic") // the same input is judged by its FR line
+			return "", "", ""
 		}
 		cls := func(s string) string {
 			if strings.HasPrefix(s, "err:required:") {
